@@ -86,11 +86,13 @@ pub fn parse_files(
         }
         [] => {
             // TODO: Maybe use a flag to ensure that a main component must be present.
+            reports.append(&mut duplicate_definition_reports(&definitions));
             let template_library = TemplateLibrary::new(definitions, file_library);
             ParseResult::Library(Box::new(template_library), reports)
         }
         _ => {
             reports.push(errors::MultipleMainError::produce_report());
+            reports.append(&mut duplicate_definition_reports(&definitions));
             let template_library = TemplateLibrary::new(definitions, file_library);
             ParseResult::Library(Box::new(template_library), reports)
         }
@@ -131,6 +133,25 @@ pub fn parse_files(
         }
     }
     result
+}
+
+/// A template library keeps one definition per name. Without a main component
+/// there is no program archive to notice that a name is defined twice, so this
+/// is checked here (in the same way, and with the same report).
+fn duplicate_definition_reports(
+    definitions: &HashMap<FileID, Vec<program_structure::ast::Definition>>,
+) -> ReportCollection {
+    use program_structure::program_merger::Merger;
+    let mut merger = Merger::new();
+    let mut reports = ReportCollection::new();
+    let mut file_ids = definitions.keys().collect::<Vec<_>>();
+    file_ids.sort();
+    for file_id in file_ids {
+        if let Err(mut errors) = merger.add_definitions(*file_id, &definitions[file_id]) {
+            reports.append(&mut errors);
+        }
+    }
+    reports
 }
 
 pub fn parse_file(
